@@ -54,13 +54,20 @@ structure Exc where
 deriving DecidableEq, Repr
 
 /-! ## values -/
+/-- dict keys: the one-letter string `chr(97+c)`, an int, a bytes object, `None`, a tuple of ints — key
+sets may mix them freely (such keys cannot be ordered with each other) -/
+inductive Key
+  | str (c : Nat) | int (n : Int) | bytes (b : List Nat) | none | tup (xs : List Int)
+deriving DecidableEq, Repr
+
 inductive V
   | int (n : Int)
   | str (s : List Nat)                                -- code points
   | bytes (b : List Nat)
   | none
   | list (xs : List V)
-  | dict (ks : List Nat) (vs : List V)                -- parallel lists, insertion order
+  | tuple (xs : List V)                               -- a plain tuple (exc_info tuples: `exc _ true`)
+  | dict (ks : List Key) (vs : List V)                -- parallel lists, insertion order
   | obj (tag : Nat) (attrs : List Nat) (vs : List V)  -- instance of harness class `Obj<tag>`
   | exc (e : Exc) (info : Bool)                       -- info: the exc_info tuple `(type, e, tb)`; else `e` itself
   | fnRet (v : V)                                     -- callable returning `v`
@@ -75,6 +82,7 @@ def veq : V → V → Bool
   | .bytes a, .bytes b => a == b
   | .none, .none => true
   | .list a, .list b => veqL a b
+  | .tuple a, .tuple b => veqL a b
   | .dict ka va, .dict kb vb => ka == kb && veqL va vb
   | .obj t ka va, .obj t' kb vb => t == t' && ka == kb && veqL va vb
   | .exc e i, .exc e' i' => e == e' && i == i'
@@ -99,12 +107,33 @@ def Verdict.isMatch : Verdict → Bool
   | _ => false
 
 /-! ## Python primitives on `V` -/
-def keyV (k : Nat) : V := .str [97 + k]
+def keyV : Key → V
+  | .str c => .str [97 + c]
+  | .int n => .int n
+  | .bytes b => .bytes b
+  | .none => .none
+  | .tup xs => .tuple (xs.map .int)
+
+def intsOf : List V → Option (List Int)
+  | [] => some []
+  | .int n :: r => (intsOf r).map (n :: ·)
+  | _ :: _ => Option.none
+
+/-- the dict key a value is, if it is one of the universe (other hashable values are never keys of the
+dicts the harness builds; unhashable ones make `in` raise a `TypeError`, which `Contains` catches) -/
+def toKey : V → Option Key
+  | .str [c] => if 97 ≤ c then some (.str (c - 97)) else Option.none
+  | .int n => some (.int n)
+  | .bytes b => some (.bytes b)
+  | .none => some .none
+  | .tuple xs => (intsOf xs).map .tup
+  | _ => Option.none
 
 /-- `iter(v)`; `none` = `TypeError` (exc_info tuples are iterable in Python but their members are not in
 `V`: the harness never lets one be iterated) -/
 def pyIter : V → Option (List V)
   | .list xs => some xs
+  | .tuple xs => some xs
   | .dict ks _ => some (ks.map keyV)
   | .str s => some (s.map fun c => .str [c])
   | .bytes b => some (b.map fun c => .int (Int.ofNat c))
@@ -113,6 +142,7 @@ def pyIter : V → Option (List V)
 /-- `len(v)`; `none` = `TypeError` -/
 def pyLen : V → Option Nat
   | .list xs => some xs.length
+  | .tuple xs => some xs.length
   | .dict ks _ => some ks.length
   | .str s => some s.length
   | .bytes b => some b.length
@@ -132,6 +162,7 @@ def pyLt : V → V → Option Bool
   | .str a, .str b => some (lexLt a b)
   | .bytes a, .bytes b => some (lexLt a b)
   | .list a, .list b => pyLtL a b
+  | .tuple a, .tuple b => pyLtL a b
   | _, _ => Option.none
 def pyLtL : List V → List V → Option Bool
   | [], [] => some false
@@ -148,13 +179,19 @@ def lookupKey (k : Nat) : List Nat → List V → Option V
   | k' :: ks, v :: vs => if k == k' then some v else lookupKey k ks vs
   | _, _ => Option.none
 
+/-- `d[k]` -/
+def lookupK (k : Key) : List Key → List V → Option V
+  | k' :: ks, v :: vs => if k == k' then some v else lookupK k ks vs
+  | _, _ => Option.none
+
 /-- `needle in matchee` as `Contains.match` sees it: `TypeError` is caught there and means "not
 contained"; the only other outcome is the `ValueError` of `300 in b'..'`. -/
 def pyContains (needle : V) : V → Verdict
   | .list xs => .ofBool (xs.any (veq needle))
-  | .dict ks _ => match needle with
-      | .str [c] => .ofBool (decide (97 ≤ c) && ks.contains (c - 97))
-      | _ => .mismatch                      -- other strings are no keys; unhashable needles: TypeError, caught
+  | .tuple xs => .ofBool (xs.any (veq needle))
+  | .dict ks _ => match toKey needle with
+      | some k => .ofBool (ks.contains k)
+      | none => .mismatch                   -- no key of the universe; unhashable needles: TypeError, caught
   | .str s => match needle with
       | .str n => .ofBool (infixB n s)
       | _ => .mismatch
@@ -185,7 +222,7 @@ def isInstance (v : V) : TypeTag → Bool
   | .bytes => match v with | .bytes _ => true | _ => false
   | .list => match v with | .list _ => true | _ => false
   | .dict => match v with | .dict _ _ => true | _ => false
-  | .tuple => match v with | .exc _ true => true | _ => false
+  | .tuple => match v with | .exc _ true => true | .tuple _ => true | _ => false
   | .noneType => match v with | .none => true | _ => false
   | .obj k => match v with | .obj t _ _ => t == k | _ => false
   | .exc c => match v with | .exc e false => isSub e.cls c | _ => false
@@ -196,7 +233,8 @@ def eraseV (x : V) : List V → List V
   | a :: as => if veq a x then as else a :: eraseV x as
 def listSubtract (a b : List V) : List V := b.foldl (fun acc x => eraseV x acc) a
 
-def sortNat (xs : List Nat) : List Nat := xs.mergeSort (fun a b => a ≤ b)
+/-- the same keys with the same multiplicities (how the keys happen to be ordered plays no role) -/
+def sameKeys (a b : List Key) : Bool := (a ++ b).all fun k => a.count k == b.count k
 
 /-- what calling a value does: `Sum.inl r` returned, `Sum.inr e` raised -/
 def callV : V → Sum V Exc
@@ -213,7 +251,7 @@ deriving DecidableEq, Repr
 inductive Leaf
   | equals (e : V) | notEquals (e : V) | is_ (e : V) | lessThan (e : V) | greaterThan (e : V)
   | sameMembers (e : List V) | startsWith (e : V) | endsWith (e : V) | contains (e : V)
-  | isInstance (ts : List TypeTag) | hasLength (n : Int) | always | never | keysEqual (ks : List Nat)
+  | isInstance (ts : List TypeTag) | hasLength (n : Int) | always | never | keysEqual (ks : List Key)
   | excType (cs : List ExcCls)       -- MatchesException(<type or tuple of types>)
   | excInst (e : Exc)                -- MatchesException(<instance>)
   | raisesAny                        -- Raises()
@@ -248,7 +286,7 @@ inductive M
   builds the expression twice with these orders forced) -/
   | setwise (ka kb : List Nat) (ms : List M)
   | structure (attrs : List Nat) (ms : List M)
-  | dict (kind : DictKind) (ks : List Nat) (ms : List M)
+  | dict (kind : DictKind) (ks : List Key) (ms : List M)
   | annotate (m : M)
   | after (f : PreFn) (annot : Bool) (m : M)
 deriving Repr
@@ -259,6 +297,12 @@ def lookupTbl (v : V) : List V → List Verdict → Verdict
   | _, _ => .raised .oracleMiss
 
 def excTypeMatches (cs : List ExcCls) (e : Exc) : Bool := cs.any (isSub e.cls)
+
+/-- `MatchesException.match` on a tuple that is no exc_info: `issubclass(other[0], …)` raises `IndexError`
+(empty tuple) or `TypeError` (`other[0]` is no class) -/
+def plainTupleExc : List V → Verdict
+  | [] => .raised .lookupError
+  | _ :: _ => .raised .typeError
 
 /-- does `message % (matchee,)` raise `TypeError`?  The matchee is always passed as ONE argument (a
 tuple matchee too), so exactly the messages with one conversion format. -/
@@ -287,13 +331,15 @@ def leafImpl : Leaf → V → Verdict
   | .always, _ => .match
   | .never, _ => .mismatch
   | .keysEqual ks, v => match v with
-      | .dict ks' _ => .ofBool (sortNat ks' == sortNat ks)
+      | .dict ks' _ => .ofBool (sameKeys ks ks')
       | _ => .raised .attributeError
   | .excType cs, v => match v with
       | .exc e true => .ofBool (excTypeMatches cs e)
+      | .tuple xs => plainTupleExc xs
       | _ => .mismatch                                   -- "is not an exc_info tuple"
   | .excInst x, v => match v with
       | .exc e true => .ofBool (isSub e.cls x.cls && e.arg == x.arg)
+      | .tuple xs => plainTupleExc xs
       | _ => .mismatch
   | .raisesAny, v => match callV v with
       | .inl _ => .mismatch                              -- "returned"
@@ -379,7 +425,7 @@ def somes : List (Option Verdict) → List Verdict
 
 /-- `_CombinedMatcher.match`: the labelled parts in the order of `matcher_factories` ("Extra", "Missing",
 "Differences"); only "Differences" can raise; the verdict is a mismatch iff some part is. -/
-def dictImpl (kind : DictKind) (ks : List Nat) (diffs : List (Option Verdict)) : V → Verdict
+def dictImpl (kind : DictKind) (ks : List Key) (diffs : List (Option Verdict)) : V → Verdict
   | .dict oks _ =>
     let extra := oks.any (fun k => !ks.contains k)
     let missing := ks.any (fun k => !oks.contains k)
@@ -413,6 +459,7 @@ def matchImpl (sel : Bool) : M → V → Verdict
   | .leaf l, v => leafImpl l v
   | .excTypeV cs vm, v => match v with
       | .exc e true => if excTypeMatches cs e then matchImpl sel vm (.exc e false) else .mismatch
+      | .tuple xs => plainTupleExc xs
       | _ => .mismatch
   | .raises em, v => match callV v with
       | .inl _ => .mismatch
@@ -438,7 +485,7 @@ def matchImpl (sel : Bool) : M → V → Verdict
   | .setwise _ _ ms, v => setwiseImpl (fun x => matchRow sel ms x) ms.length v
   | .structure attrs ms, v => structImpl attrs (matchZip sel ms (attrs.map (getAttr v)))
   | .dict kind ks ms, v => match v with
-      | .dict oks ovs => dictImpl kind ks (matchZip sel ms (ks.map fun k => lookupKey k oks ovs)) v
+      | .dict oks ovs => dictImpl kind ks (matchZip sel ms (ks.map fun k => lookupK k oks ovs)) v
       | _ => .raised .typeError
   | .annotate m, v => matchImpl sel m v
   | .after f _ m, v => match applyPre f v with
